@@ -111,7 +111,7 @@ pub fn def(ctx: &Ctx) -> PropDef {
             let max_blocks = t.pick(3usize, 40);
             subs.push(PSub::boxed(
                 format!("stream/{}/{}", ty.name(), if core_route { "core" } else { "rng" }),
-                t.pick(1500, 75_000),
+                t.pick(5000, 400_000),
                 move || {
                     (gens::seed_for(ty, true), depth.clone(), 0usize..=max_blocks)
                         .prop_map(move |(seed, depth, extra)| Case { wide, seed: Some(seed), depth: depth + if extra > 3 { extra * 256 } else { 0 }, core_route })
